@@ -12,7 +12,7 @@ import numpy as np
 
 from ..core import util
 
-TECHNIQUE = "runtime post-condition monitor on split_data with uniquely tagged rows (conservation / exactly-once per environment), fold-size, determinism and ratio-sum contracts over a grid of sizes x ratio compositions x seeds"
+TECHNIQUE = "runtime post-condition monitor on split_data with uniquely tagged rows (conservation / exactly-once per environment), fold-size, determinism and ratio-sum contracts over a grid of sizes x ratio compositions x seeds; place-frequency and co-occurrence monitor of the shuffle over thousands of seeds (Chernoff bound)"
 LEVEL_TEXT = ("For every n in 0..40 (plus 99, 101, 1000), ratio vectors built as integer compositions k_i/m (m in 2,3,5,7,10,100; 1-6 folds, "
               "zeros allowed; exact sum 1 whatever the float sum) and 1-3 environments of unequal size, each row is tracked by a unique "
               "id: every observation must appear in exactly one fold of its own environment with its row intact; non-last folds have "
